@@ -131,6 +131,73 @@ def no_transaction_case():
             'rows': True}
 
 
+def batch_correspondence(ctx):
+    """SQLExecutor._prepare_sql + _prepare_transaction_batches on generated lists of statement groups (plain lists,
+    single strings, NoTransactionSQL, NewTransactionSQL; empty statements, comments, padded statements) against the
+    Lean model `cut (prepare groups)`; and, on the real output alone, the rule the property rests on: a statement
+    that is to run inside a transaction never lands in a batch that runs without one"""
+    import random
+    from django_evolution.utils.sql import SQLExecutor, NoTransactionSQL, NewTransactionSQL
+    rng = random.Random(ctx.seed * 131 + 7)
+    pool = ['CREATE TABLE "TEMP_TABLE" (x);', 'INSERT INTO "TEMP_TABLE" SELECT 1;', 'DROP TABLE "t";', 'VACUUM;',
+            'PRAGMA writable_schema = 1;', 'UPDATE t SET a = 1;', '', '-- a comment', '  SELECT 1;  ', '--', '-x']
+    n = 300 if ctx.tier == 'quick' else 5000
+    cases = []
+    fixed = [[('plain', ['CREATE TABLE "TEMP_TABLE" (x);', 'DROP TABLE "t";']), ('no_tx', ['VACUUM;'])],
+             [('no_tx', ['VACUUM;']), ('plain', ['UPDATE t SET a = 1;'])],
+             [('plain', ['UPDATE t SET a = 1;']), ('new_tx', ['PRAGMA writable_schema = 1;', 'UPDATE t SET a = 1;']),
+              ('no_tx', ['VACUUM;'])],
+             [('new_tx', ['', 'UPDATE t SET a = 1;']), ('new_tx', ['UPDATE t SET a = 1;'])]]
+    for i in range(n):
+        if i < len(fixed):
+            cases.append(fixed[i])
+            continue
+        gs = []
+        for _ in range(rng.randint(1, 5)):
+            kind = rng.choice(['plain', 'plain', 'single', 'no_tx', 'new_tx'])
+            if kind == 'single':
+                gs.append(('single', [rng.choice(pool)]))
+            else:
+                gs.append((kind, [rng.choice(pool) for _ in range(rng.randint(0, 3))]))
+        cases.append(gs)
+    ex = SQLExecutor('default')
+    from django_evolution.db import EvolutionOperationsMulti
+    ex._evolver_backend = EvolutionOperationsMulti('default').get_evolver()   # what __enter__ sets
+    reqs, reals = [], []
+    for gs in cases:
+        real_in = []
+        for kind, ss in gs:
+            real_in.append(ss[0] if kind == 'single' else NoTransactionSQL(list(ss)) if kind == 'no_tx' else
+                           NewTransactionSQL(list(ss)) if kind == 'new_tx' else list(ss))
+        prepared = list(ex._prepare_sql(real_in))
+        batches = [([st for st, _params in b], tx) for b, tx in ex._prepare_transaction_batches(prepared)]
+        reals.append((prepared, batches))
+        reqs.append({'op': 'batches', 'groups': [{'kind': 'plain' if k == 'single' else k, 'sql': [x.strip() for x in ss]}
+                                                 for k, ss in gs]})
+        ctx.count('batch_groups=%d' % len(gs))
+        for k, _ in gs:
+            ctx.count('group:' + k)
+    outs = ctx.driver.ask(reqs) if ctx.driver else [None] * len(cases)
+    for gs, (prepared, batches), out in zip(cases, reals, outs):
+        impl = [{'sql': b, 'tx': tx} for b, tx in batches]
+        if out is not None:
+            ctx.corr_case('transaction_batches', out.get('batches') == impl, case={'groups': gs},
+                          model=out.get('batches'), impl=impl)
+        # the rule itself, judged on the real code alone
+        want = [(st, use) for st, _p, use, _n in prepared]
+        got = [(st, tx) for b, tx in batches for st in b]
+        ctx.count('batching_cases')
+        if [st for st, _ in want] != [st for st, _ in got]:
+            ctx.fail(None, 'batching loses or reorders statements: %r -> %r' % ([w[0] for w in want], [g[0] for g in got]),
+                     {'scenario': 'batching', 'groups': gs})
+        else:
+            wrong = [(w[0], w[1], g[1]) for w, g in zip(want, got) if w[1] is not g[1]]
+            if wrong:
+                ctx.fail(None, 'statement %r is to run %s a transaction, but its batch is executed %s one'
+                         % (wrong[0][0][:40], 'inside' if wrong[0][1] else 'outside', 'inside' if wrong[0][2] else 'outside'),
+                         {'scenario': 'batching', 'groups': gs})
+
+
 def purge_fault_cases(ctx):
     """an upgrade that also purges an app that is no longer installed (two task classes in one run), with a fault at
     every statement of the purge: whatever the first class had done, no evolution may be recorded, the stored
@@ -322,6 +389,7 @@ def run(ctx):
                 if what:
                     ctx.fail(None, 'fault at write #%d of %d: %s' % (k, n, what), dict(rep, retry='same Evolver'))
     purge_fault_cases(ctx)
+    batch_correspondence(ctx)
     if book_witness is not None:
         ctx.fail(F_BOOK, 'the version/evolution records are written outside the evolution\'s transaction: a failure '
                  'there leaves the evolved schema without its records', book_witness)
@@ -341,6 +409,21 @@ def run(ctx):
 
 def replay(ctx, obj):
     _r = obj.get('replay', obj)
+    if isinstance(_r, dict) and _r.get('scenario') == 'batching':
+        evorig.setup()
+        from django_evolution.utils.sql import SQLExecutor, NoTransactionSQL, NewTransactionSQL
+        ex = SQLExecutor('default')
+        from django_evolution.db import EvolutionOperationsMulti
+        ex._evolver_backend = EvolutionOperationsMulti('default').get_evolver()
+        real_in = [ss[0] if k == 'single' else NoTransactionSQL(list(ss)) if k == 'no_tx' else
+                   NewTransactionSQL(list(ss)) if k == 'new_tx' else list(ss) for k, ss in _r['groups']]
+        prepared = list(ex._prepare_sql(real_in))
+        batches = list(ex._prepare_transaction_batches(prepared))
+        print('prepared:', [(st, use, new) for st, _p, use, new in prepared])
+        print('batches: ', [([st for st, _ in b], tx) for b, tx in batches])
+        want = [(st, use) for st, _p, use, _n in prepared]
+        got = [(st, tx) for b, tx in batches for st, _ in b]
+        return 0 if len(want) == len(got) and all(w[0] == g[0] and w[1] is g[1] for w, g in zip(want, got)) else 1
     if isinstance(_r, dict) and _r.get('scenario'):
         print('this scenario (%s) is rebuilt by the check itself: VERIF_SEED=%s ./check C07' % (_r['scenario'], obj.get('seed')))
         return 0
